@@ -76,12 +76,24 @@ def r_guards(chk, P, tier):
 
 
 def r_digits(chk, P, tier):
-    chk.rule("TBL.span_for_digits", "span_for_digits(d) = 10^(9 - min(9, d))", floor=10)
-    m, discr = extract_switch_map(Sym(P, "round::span_for_digits"))
-    chk.expect(discr == ("arg", 1), "discr", "span_for_digits does not match on its argument: %s" % pp(discr))
+    """span_for_digits as a complete finite map: the argument is a u16, all 65 536 values are folded (def-use terms, no execution) - independent of whether
+    the function is written as a match, a table lookup or arithmetic"""
+    from finmap import Folder, Unknown
+    chk.rule("TBL.span_for_digits", "span_for_digits(d) = 10^(9 - min(9, d)) for every d in 0..=65535 (complete finite map)", floor=10)
+    fo = Folder(P)
+    fn = "round::span_for_digits"
+    bad = {}
+    for d in range(65536):
+        try:
+            r = fo.call(fn, [("const", d)])
+            v = r[1] if isinstance(r, tuple) and r and r[0] == "const" else r
+        except Unknown as e:
+            v = "unknown: %s" % e
+        if v != 10 ** (9 - min(9, d)):
+            bad.setdefault(min(d, 9), (d, v))
     for d in range(9):
-        chk.expect(m.get(d) == 10 ** (9 - d), "digits=%d" % d, "span_for_digits(%d) = %s, expected %d" % (d, m.get(d), 10 ** (9 - d)), loc=P.loc("round::span_for_digits"))
-    chk.expect(m.get("else") == 1 and set(k for k in m if k != "else") == set(range(9)), "digits>=9", "span_for_digits default arm = %s, expected 1 for every d >= 9" % m.get("else"))
+        chk.expect(d not in bad, "digits=%d" % d, "span_for_digits(%s) = %s, expected %d" % (bad.get(d, (d, 0))[0], bad.get(d, (d, 0))[1], 10 ** (9 - d)), loc=P.loc(fn))
+    chk.expect(9 not in bad, "digits>=9", "span_for_digits(%s) = %s, expected 1 for every d >= 9" % bad.get(9, (9, 1)), loc=P.loc(fn))
 
 
 def r_basis(chk, P, tier):
